@@ -1809,7 +1809,7 @@ def _c03_shrink(case):
 
 
 PROPS['C03'] = {
-    'lean_modules': ['KVerif.Props.C03'],
+    'lean_modules': ['KVerif.Props.C03', 'KVerif.Props.C03vars'],
     'norm_impl': _c03_norm,
     'oracle_project': _c03_project,
     'nontrivial': _c03_nontrivial,
@@ -1826,7 +1826,10 @@ PROPS['C03'] = {
             'with 0..5 arguments of plausible kinds in 17 contexts; top-level items and defcfg options with odd arguments; dictionary/chord '
             'files for defzippy and defchordsv2 include; nesting to depth 197; bounded doubling; a seed split into main + mutated included '
             'file; raw character-level mutations (quotes, raw-string and comment delimiters, BOM, multi-byte characters, truncation); all '
-            'strings of <= 3 front-end tokens and random longer ones. A case is non-trivial unless the harness rejects the line; distinct = '
+            'strings of <= 3 front-end tokens and random longer ones; defvar reference graphs (tag vg: all 512 graphs on three list-valued '
+            'variables, and random graphs on 2..7 variables with random definition order, item boundaries and value shapes - bare $name, '
+            'nested lists, concat over earlier/later variables, a reference produced by concat - about half of them cyclic; every '
+            'variable is used in the layer). A case is non-trivial unless the harness rejects the line; distinct = '
             'distinct case line. Compared with the model: sexpr::parse (tree, spans, line counters, diagnostic class), expand_templates, '
             'parse_vars + $name resolution, and the loader\'s diagnostic whenever the modelled front end produces it.',
     'stats': _c03_stats,
